@@ -11,7 +11,7 @@ BUILTINS = {'len', 'int', 'str', 'bool', 'min', 'max', 'sum', 'abs', 'list', 'tu
             'enumerate', 'reversed', 'range', 'isinstance', 'any', 'all', 'sorted', 'repr', 'print', 'iter', 'next',
             'bytes', 'float', 'id', 'hash', 'type', 'getattr', 'hasattr', 'divmod', 'chr', 'ord', 'format', 'super',
             'callable', 'object', 'NotImplemented', 'round'}
-SPEC_BUILTINS = {'allocated', 'forall', 'exists', 'implies', 'iff', 'old', 'ite', 'seq_get', 'subset', 'setof', 'distinct', 'is_prefix',
+SPEC_BUILTINS = {'seq_tab', 'allocated', 'forall', 'exists', 'implies', 'iff', 'old', 'ite', 'seq_get', 'subset', 'setof', 'distinct', 'is_prefix',
                  'is_none', 'some', 'emptyset', 'set_add', 'set_remove', 'seq_take', 'seq_drop', 'index_of', 'card',
                  'str_len', 'str_at', 'str_contains', 'str_indexof', 'str_prefixof', 'str_suffixof', 'str_sub',
                  'str_replace_first', 'domain', 'map_get', 'unchanged', 'map_same_except', 'heap_same', 'heap_same_except', 'map_same', 'okey', 'opos', 'oval', 'osame', 'oprefix', 'fun_set', 'has_flag', 'in_re_pat', 'in_re', 'int_to_str', 'str_to_int', 'str_lt', 'str_le'}
@@ -756,6 +756,17 @@ def call_spec(ex, name, args, kwargs, node):
     if name == 'ite': return vite(truth(a[0]), a[1], a[2])
     if name in ('forall', 'exists'):
         return _quant(ex, name, a)
+    if name == 'seq_tab':
+        # seq_tab(n, lambda k: e): the sequence of length n whose k-th element is e (a ghost sequence given by a table)
+        n_, lam = a
+        if not isinstance(lam, E.LambdaV): raise Unsupported('seq_tab needs a lambda')
+        kc = z3.Const('%s!t%d' % (lam.node.args.args[0].arg, ex.qdepth), z3.IntSort())
+        saved = ex.st.env
+        ex.st.env = dict(lam.env); ex.st.env.update(saved); ex.st.env[lam.node.args.args[0].arg] = vint(kc)
+        ex.qdepth += 1
+        try: el = ex.val(ex.eval(lam.node.body))
+        finally: ex.st.env = saved; ex.qdepth -= 1
+        return V(TSeq(el.ty), (coerce(n_, TInt).t, z3.Lambda([kc], pack(el))))
     if name == 'allocated':      # the object exists (was constructed earlier): a freshly constructed object differs from every allocated one
         a0 = ex.val(args[0])
         if ex.st.alloc is None: ex.st.alloc = ex.vf.alloc0()
